@@ -2,6 +2,7 @@ CONSTANTS
  Mode = "gen"
  HistLen = 4
  LenientRelabel = FALSE
+ NeedGraph = TRUE
  RestartSets = {{1}, {2}, {3}}
 INIT RInit
 NEXT RNext
